@@ -670,3 +670,79 @@ func scanOnlyCallers(P *Program, sp ScanSpec) []*OblResult {
 	}
 	return []*OblResult{scanResult(sp.Name, "F8", true, fmt.Sprintf("callers of %s: %v", callee, sp.List))}
 }
+
+// field_writers: the field Args[field] of the struct type Args[type] (canonical, e.g.
+// x/consensus/keeper/consensus.QueueOptions) is stored to -- by assignment or in a composite
+// literal -- only inside the functions in List.
+func scanFieldWriters(P *Program, sp ScanSpec) []*OblResult {
+	typ, field := sp.Args["type"], sp.Args["field"]
+	found := map[string]bool{}
+	seenType := false
+	for fn := range ssautil.AllFunctions(P.SSA) {
+		if fn.Synthetic != "" {
+			continue
+		}
+		for _, b := range fn.Blocks {
+			for _, in := range b.Instrs {
+				fa, ok := in.(*ssa.FieldAddr)
+				if !ok {
+					continue
+				}
+				pt, ok := fa.X.Type().Underlying().(*types.Pointer)
+				if !ok {
+					continue
+				}
+				named, ok := types.Unalias(pt.Elem()).(*types.Named)
+				if !ok || named.Obj().Pkg() == nil {
+					continue
+				}
+				full := strings.TrimPrefix(named.Obj().Pkg().Path(), ModPath+"/") + "." + named.Obj().Name()
+				if full != typ {
+					continue
+				}
+				st, ok := named.Underlying().(*types.Struct)
+				if !ok {
+					continue
+				}
+				seenType = true
+				if st.Field(fa.Field).Name() != field {
+					continue
+				}
+				for _, ref := range *fa.Referrers() {
+					if s, ok := ref.(*ssa.Store); ok && s.Addr == fa {
+						found[CanonName(fn)] = true
+					}
+				}
+			}
+		}
+	}
+	if !seenType {
+		return []*OblResult{scanResult(sp.Name, "F8", false, "no use of type "+typ+" found")}
+	}
+	want := map[string]bool{}
+	for _, w := range sp.List {
+		want[w] = true
+	}
+	var extra, missing []string
+	for f := range found {
+		if !want[f] && !strings.Contains(f, "_test") {
+			extra = append(extra, f)
+		}
+	}
+	for w := range want {
+		if !found[w] {
+			missing = append(missing, w)
+		}
+	}
+	sort.Strings(extra)
+	sort.Strings(missing)
+	if len(extra) > 0 {
+		return []*OblResult{scanResult(sp.Name, "F8", false, fmt.Sprintf("%s.%s is also written in %v (census lists %v)", typ, field, extra, sp.List))}
+	}
+	if len(missing) > 0 {
+		return []*OblResult{scanResult(sp.Name, "F8", false, fmt.Sprintf("%s.%s is no longer written in %v", typ, field, missing))}
+	}
+	return []*OblResult{scanResult(sp.Name, "F8", true, fmt.Sprintf("writers of %s.%s: %v", typ, field, sp.List))}
+}
+
+func init() { scanKinds["field_writers"] = scanFieldWriters }
